@@ -86,11 +86,24 @@ class Instance:
             obj = ld.cls.deserialize(R(got[1]))
             self.sources = {}
         self.obj = obj
+        # the observable state is taken BEFORE the first serialization: serializing is not allowed to change it either
+        before = self.snapshot()
         first = real_serialize(ld.cls, obj, False)
         if first[0] != "bytes":
             raise ValueError("instance does not serialize")
         self.first = first[1]
         self.snap = self.snapshot()
+        self.changed_by_first_serialize = None
+        if self.snap != before:
+            self.changed_by_first_serialize = f"the first serialization changed the instance's observable state: {before[:300]} -> {self.snap[:300]}"
+        elif p.kind == "packet" and hasattr(obj, "write"):
+            W = loader.lib("eolib.data.eo_writer").EoWriter
+            try:
+                obj.write(W())
+            except Exception:  # noqa: BLE001 - judged by the write histories
+                pass
+            if self.snapshot() != before:
+                self.changed_by_first_serialize = f"the first write() changed the instance's observable state: {before[:300]} -> {self.snapshot()[:300]}"
 
     def _build(self, cls, unit, val):
         # like Adaptor.build but keeps the list objects handed to the top-level constructor
@@ -282,6 +295,8 @@ def run_history(ld, ad, val, deserialized, hist, container="list"):
         raise
     except Exception:  # noqa: BLE001 - an instance that cannot be built / serialized is C01's concern, not C19's
         return "skip"
+    if inst.changed_by_first_serialize:
+        return f"step 0 ('serialize',): {inst.changed_by_first_serialize}"
     for i, op in enumerate(hist):
         try:
             what = apply(inst, tuple(op))
